@@ -28,8 +28,9 @@ readings) instantiated with the configuration regenerated from /repo on every ru
   `consumers_within_slack` (UT1 / TDB: 2 µs);
 * CCSDS reading — `parse_date_passes_scale`, `parse_date_call_sites_use_time_system` (on the regenerated tables),
   `parseDate_scale_reaches_date`, `parseDate_reading_label_free`; writing then reading —
-  `ccsds_epoch_roundtrip_partial` (an epoch labelled like TIME_SYSTEM reads back as the same instant; for an epoch
-  labelled otherwise the code moves the instant: `Witness/C04.lean: ccsds_mixed_label_moves_instant`, open finding).
+  `ccsds_writers_convert_to_time_system` (regenerated emission sites of the writers), `ccsds_epoch_roundtrip` (an epoch
+  labelled in any uniform scale, written under any TIME_SYSTEM, reads back as the instant written — since fix aa1842c;
+  regression witness `Witness/C04.lean: ccsds_mixed_label_moves_instant`), `ccsds_epoch_roundtrip_slack` (UT1 / TDB: 2.5 µs).
 
 That each public operation uses its dates only through these quantities is established by the oracle sweep of
 harness/props/C04.py on the real API (6 labels × 6 labels per operation), not here.
@@ -483,15 +484,15 @@ example : CcsdsDate.parseText branches "2016-12-30T14:00:36.000000" = some (⟨"
 
 /-! ## CCSDS: writing, then reading -/
 
-/-- **an epoch labelled like the message's TIME_SYSTEM reads back as the same instant** (UTC, TAI, TT, GPS; whole
-microseconds).
+/-- **every writer converts the epochs it emits to the message's TIME_SYSTEM** (regenerated emission sites of the OPM,
+OEM, OMM and TDM writers): each formatted epoch is the head date itself, an `in_scale(date, head.scale)`, or the
+header's `Date.now()` — never a date printed in its own scale -/
+theorem ccsds_writers_convert_to_time_system :
+    (∃ s ∈ writerEpochSites, s.2.2 = "converted") ∧ ∀ s ∈ writerEpochSites, s.2.2 ≠ "raw" := by decide
 
-Full statement (property text): *every* epoch of a message — the state's, a maneuver's, an ephemeris point's, a
-covariance's — reads back as the instant that was written, whatever its label.  False of the code for an epoch whose
-label differs from the label of the date that decides TIME_SYSTEM: the writers emit each epoch's own-scale clock reading
-(`Message.dump`), the readers construct every epoch in TIME_SYSTEM (`load`); see `Witness/C04.lean:
-ccsds_mixed_label_moves_instant` (open finding `ccsds-mixed-scale-epochs`).  Proved here: the case of equal labels. -/
-theorem ccsds_epoch_roundtrip_partial {env : Env} {x y : Date} (hx : WF cfg env x) (hsc : x.scale ∈ uniformIx)
+/-- an epoch that already carries the label of TIME_SYSTEM is written as its own clock reading and reads back as the
+same instant (UTC, TAI, TT, GPS; whole microseconds) -/
+theorem ccsds_epoch_roundtrip_same_label {env : Env} {x y : Date} (hx : WF cfg env x) (hsc : x.scale ∈ uniformIx)
     (hus : x.s % 10 = 0) (htai : x.eop.taiUtc % 10 = 0)
     (h : ofDatetime cfg env x.scale (CcsdsDate.written x) = .ok y) (hl : y.eop.taiUtc = x.eop.taiUtc) :
     y.inst = x.inst ∧ y.scale = x.scale := by
@@ -503,13 +504,72 @@ theorem ccsds_epoch_roundtrip_partial {env : Env} {x y : Date} (hx : WF cfg env 
   simp only [CcsdsDate.written, Date.datetime, Date.datetimeRef, Date.inst, D, DUS] at *
   omega
 
-/-- a whole message whose epochs all carry the head's label: every epoch reads back in that label -/
-theorem ccsds_message_labels (env : Env) (m : CcsdsDate.Message) :
-    ∀ r ∈ CcsdsDate.load cfg env m.dump, ∀ y, r = .ok y → y.scale = m.head.scale := by
-  intro r hr y hy
-  simp only [CcsdsDate.load, CcsdsDate.Message.dump, List.mem_map] at hr
-  obtain ⟨us, _, rfl⟩ := hr
-  exact (ofDatetime_spec hy).2.1
+/-- **an epoch labelled in ANY of UTC, TAI, TT, GPS, written under any such TIME_SYSTEM, reads back as the instant that
+was written** — the full statement, true of the code since fix aa1842c: the writer converts the date to TIME_SYSTEM
+(`inScale`), prints the converted clock reading, the reader constructs that reading in TIME_SYSTEM.  (No leap second
+between the readings: `hl₁`, `hl₂`.)  Before the fix the statement failed for `x.scale ≠ ts`: regression witness
+`Witness/C04.lean: ccsds_mixed_label_moves_instant`. -/
+theorem ccsds_epoch_roundtrip {env : Env} {x w y : Date} {ts : Nat} (hx : WF cfg env x) (hsc : x.scale ∈ uniformIx)
+    (hts : ts ∈ uniformIx) (hus : x.s % 10 = 0) (htai : x.eop.taiUtc % 10 = 0)
+    (hwr : CcsdsDate.inScale cfg env x ts = .ok w) (hl₁ : w.eop.taiUtc = x.eop.taiUtc)
+    (h : ofDatetime cfg env ts (CcsdsDate.written w) = .ok y) (hl₂ : y.eop.taiUtc = w.eop.taiUtc) :
+    y.inst = x.inst ∧ y.scale = ts := by
+  unfold CcsdsDate.inScale at hwr
+  split at hwr
+  · -- another label: change_scale keeps the instant, the converted date carries TIME_SYSTEM
+    obtain ⟨hi, hs⟩ := changeScale_same_instant hx hsc hts hus htai hwr hl₁
+    obtain ⟨_, _, _, hw, _, _⟩ := changeScale_instant hx hwr
+    obtain ⟨_, hds⟩ := same_inst_same_ds ⟨hw.s_nonneg, hw.s_lt⟩ ⟨hx.s_nonneg, hx.s_lt⟩ hi
+    have hscw : w.scale ∈ uniformIx := hs ▸ hts
+    rw [← hs] at h
+    obtain ⟨a, b⟩ := ccsds_epoch_roundtrip_same_label hw hscw (by rw [hds]; exact hus) (by rw [hl₁]; exact htai) h hl₂
+    exact ⟨a.trans hi, b.trans hs⟩
+  · next heq =>
+    have heq : x.scale = ts := by simpa using heq
+    cases hwr
+    rw [← heq] at h
+    obtain ⟨a, b⟩ := ccsds_epoch_roundtrip_same_label hx hsc hus htai h hl₂
+    exact ⟨a, b.trans heq⟩
+
+/-- reading back the printed clock reading of ANY date (all six scales) in its own scale: when the constructor finds the
+same offset, the instant moves only by the two roundings to the microsecond of `datetime` — at most 1 µs -/
+theorem ccsds_reread_within_slack {env : Env} {w y : Date}
+    (h : ofDatetime cfg env w.scale (CcsdsDate.written w) = .ok y) (ho : y.off = w.off) :
+    -10 ≤ y.inst - w.inst ∧ y.inst - w.inst ≤ 10 := by
+  obtain ⟨_, _, hi⟩ := ofDatetime_spec h
+  have a := roundUs_bound w.s
+  have b := roundUs_bound w.off
+  simp only [CcsdsDate.written, Date.datetime, Date.datetimeRef, Date.inst, D, DUS] at *
+  omega
+
+/-- **UT1 / TDB labels or TIME_SYSTEM** (every pair of the six scales): within the slack C03 proves for the conversion
+(1.5 µs when the offsets of the two constructions agree) plus the 1 µs of re-reading — the instant read back is within
+2.5 µs of the instant written -/
+theorem ccsds_epoch_roundtrip_slack {env : Env} {x w y : Date} {ts : Nat} (hx : WF cfg env x)
+    (hwr : CcsdsDate.inScale cfg env x ts = .ok w)
+    (hdrift : ∀ off, offset cfg env x.scale ts x.inst x.eop = .ok off → w.off + off = x.off)
+    (h : ofDatetime cfg env w.scale (CcsdsDate.written w) = .ok y) (ho : y.off = w.off) :
+    -25 ≤ y.inst - x.inst ∧ y.inst - x.inst ≤ 25 := by
+  have h2 := ccsds_reread_within_slack h ho
+  unfold CcsdsDate.inScale at hwr
+  split at hwr
+  · have h1 := changeScale_instant_bound_partial hx hwr hdrift
+    omega
+  · cases hwr; omega
+
+/-- a whole message: every epoch is read back under the head's label -/
+theorem ccsds_message_labels (env : Env) (m : CcsdsDate.Message) (w : Nat × List Int)
+    (hd : CcsdsDate.Message.dump cfg env m = .ok w) :
+    w.1 = m.head.scale ∧ ∀ r ∈ CcsdsDate.load cfg env w, ∀ y, r = .ok y → y.scale = m.head.scale := by
+  unfold CcsdsDate.Message.dump at hd
+  split at hd
+  · cases hd
+    refine ⟨rfl, ?_⟩
+    intro r hr y hy
+    simp only [CcsdsDate.load, List.mem_map] at hr
+    obtain ⟨us, _, rfl⟩ := hr
+    exact (ofDatetime_spec hy).2.1
+  · cases hd
 
 /-! ## non-vacuity: the hypotheses are met by concrete dates (C03's small database `envEx`)
 
@@ -543,5 +603,10 @@ example : RecOK envEx xTai ∧ RecOK envEx yTai ∧ RecOK envEx xUtc := by
   refine ⟨?_, ?_, ?_⟩ <;> (unfold RecOK; decide)
 
 example : envEx.leap.Pairwise (fun a b => a.2 ≤ b.2) := by decide
+
+/-- `ccsds_epoch_roundtrip` for the TAI-labelled `xTai` written under TIME_SYSTEM = UTC: converted, printed, read back — the same instant -/
+example : okOf (CcsdsDate.inScale cfg envEx xTai (ix "UTC")) = some xUtc ∧
+    okOf (ofDatetime cfg envEx (ix "UTC") (CcsdsDate.written xUtc)) = some xUtc ∧ xUtc.inst = xTai.inst ∧
+    ix "UTC" ∈ uniformIx ∧ xTai.s % 10 = 0 ∧ xTai.eop.taiUtc % 10 = 0 := by decide
 
 end BeyondVerif.C04
